@@ -1433,6 +1433,20 @@ func (x *scanCtx) c12Targets() {
 		case OpTerminateASG:
 			if _, ok := a.ByInst[c.Target]; !ok {
 				bad = "instance backs no node of this group's view"
+			} else if k := gs.KnownAtList; k != nil && k.Valid {
+				if _, member := k.Instances[c.Target]; !member {
+					// only a cross-group hit is judged here: the instance is a known member of ANOTHER group's ASG
+					for _, og := range x.s.cfg.Groups {
+						if og.ASG == g.ASG {
+							continue
+						}
+						if ok2 := x.s.w.known[og.ASG]; ok2 != nil && ok2.Valid {
+							if _, theirs := ok2.Instances[c.Target]; theirs {
+								bad = "instance is a member of another group's cloud group " + og.ASG + ", not of " + g.ASG
+							}
+						}
+					}
+				}
 			}
 		}
 		if bad != "" {
